@@ -11,6 +11,7 @@ answers
 import Driver.Proto
 import SpsdkVerif.Spec.MbiRom
 import SpsdkVerif.Crypto.Exec
+import SpsdkVerif.Spec.Rotkh
 open SpsdkVerif Driver
 open SpsdkVerif.Spec.MbiRom
 open SpsdkVerif.Crypto (execOps)
@@ -54,6 +55,17 @@ def step (toks : List String) : String :=
     | .ok a =>
       s!"accept strip={a.stripped} plain={match a.plain with | some p => hexOr p | none => "none"} obs="
         ++ ";".intercalate (a.obligations.map obStr)
+  | ["rotkh", t, ks] =>
+    -- the documented root-of-trust hash (Spec/Rotkh.lean, C03) over raw key numbers: r:<n>:<e> or e:<bits>:<x>:<y>, comma separated
+    let key (s : String) : Option Spec.Key := match s.splitOn ":" with
+      | ["r", n, e] => do pure (.rsa (← n.toNat?) (← e.toNat?))
+      | ["e", b, x, y] => do
+        let cv ← (if b == "256" then some Spec.Curve.p256 else if b == "384" then some Spec.Curve.p384 else none)
+        pure (.ecc cv (← x.toNat?) (← y.toNat?))
+      | _ => none
+    match Spec.RotType.ofName? t, (ks.splitOn ",").mapM key with
+    | some t, some ks => "ok:" ++ hexOr (Spec.rotkh execOps t ks)
+    | _, _ => "bad-op"
   | _ => "bad-op"
 
 end Driver.Rom
